@@ -46,7 +46,7 @@ func c11Base(i int, p c11Params) *DocCase {
 		many := append([]string{}, p.many...)
 		if i == 0 || i == 4 {
 			// a to-many list may name the same resource more than once
-			many = append(many, "u1", "u1")
+			many = append(many, "AB", "AB") // the repeated id sorts first, so an in-place compaction moves elements
 		}
 		r.Set("many", many)
 		return r
